@@ -600,11 +600,17 @@ func enumerateRequests(id string, hs []hHandler, tokens map[string][]vToken, ful
 		}
 		add(h, base, nil, true, "fail")
 		// user middlewares that stop the operation, at every stage of the handler
-		for _, st := range []string{"before#1", "before#2", "after#1", "after#2"} {
+		stops := []string{"before#1", "after#2"}
+		if full {
+			stops = []string{"before#1", "before#2", "after#1", "after#2"}
+		}
+		for _, st := range stops {
 			add(h, base, nil, false, "mwstop:"+st)
 		}
 		add(h, base, nil, true, "mwstop:onError#1:fail")
-		add(h, base, nil, true, "mwstop:onError#2:fail")
+		if full {
+			add(h, base, nil, true, "mwstop:onError#2:fail")
+		}
 		if respCheckOf(h) == "invalid" {
 			add(h, base, nil, false, "mwstop:onOutput#1")
 		}
@@ -612,8 +618,10 @@ func enumerateRequests(id string, hs []hHandler, tokens map[string][]vToken, ful
 			if p.In != "ctx" && p.In != "path" && p.Required {
 				toks := append([]string{}, base...)
 				toks[k] = "ABSENT"
-				add(h, toks, nil, false, "mwstop:onInput#1")
 				add(h, toks, nil, false, "mwstop:onInput#2")
+				if full {
+					add(h, toks, nil, false, "mwstop:onInput#1")
+				}
 				break
 			}
 		}
